@@ -14,6 +14,7 @@ Exceptions and their order follow CPython 3.12 `selectors.py` /
 behaviour with the real thing.
 """
 import errno
+import os
 import selectors
 from selectors import EVENT_READ, EVENT_WRITE, SelectorKey
 from typing import Any, Dict, List, Mapping, Optional, Tuple
@@ -92,6 +93,14 @@ class SimSelector:
             raise OSError(errno.EBADF, 'Bad file descriptor')
         return o
 
+    def _ctl_fault(self, o: OFD) -> None:
+        """epoll_ctl(ADD / MOD) can fail with ENOMEM, ADD also with ENOSPC (max_user_watches): injected only for streams
+        marked faultable and only in runs that enable the 'epoll_ctl' fault site (no tape draw otherwise)."""
+        if getattr(o, 'faultable', False):
+            k = self.w.fault('epoll_ctl', o)    # type: ignore[arg-type]
+            if k:
+                raise OSError(getattr(errno, k), os.strerror(getattr(errno, k)))
+
     # -- API --------------------------------------------------------------
     def register(self, fileobj: Any, events: int, data: Any = None) -> SelectorKey:
         self.w.syscall()
@@ -105,6 +114,7 @@ class SimSelector:
         try:
             self._purge()
             o = self._kernel_lookup(key.fd)
+            self._ctl_fault(o)
             ent = self._epoll.get(key.fd)
             if ent is not None and ent[0] is o:
                 raise FileExistsError(errno.EEXIST, 'File exists')
@@ -145,6 +155,7 @@ class SimSelector:
             try:
                 self._purge()
                 o = self._kernel_lookup(key.fd)     # EBADF
+                self._ctl_fault(o)
                 ent = self._epoll.get(key.fd)
                 if ent is None or ent[0] is not o:
                     raise FileNotFoundError(errno.ENOENT, 'No such file or directory')
